@@ -62,13 +62,15 @@ def norm_proj(p):
 
 class Prov:
     def __init__(self, prog, foreign="through", identity=IDENTITY_CALLS,
-                 max_pi=10, field_based=True, terminal=None):
+                 max_pi=10, field_based=True, terminal=None,
+                 lalrpop_bridge=True):
         self.prog = prog
         self.foreign = foreign
         self.identity = set(identity)
         self.max_pi = max_pi
         self.field_based = field_based
         self.terminal = terminal      # predicate(Call) -> stop at this call
+        self.lalrpop_bridge = lalrpop_bridge
         self.memo = {}
         self.inprog = set()
         self.cyclic = False
@@ -400,7 +402,7 @@ class Prov:
             fb = self._field_based(pi)
             if fb is not None:
                 return fb
-        if f.generated and "::__action" in f.path:
+        if self.lalrpop_bridge and f.generated and "::__action" in f.path:
             br = self._lalrpop_bridge(f, n, pi)
             if br is not None:
                 return br
